@@ -35,10 +35,11 @@ type EnvSpec struct {
 	PoolDflt int   `json:"pool_default"`
 	Ballast  int   `json:"ballast,omitempty"` // KiB of garbage allocated before the build
 	GCBefore bool  `json:"gc_before,omitempty"`
-	GOGC     int   `json:"gogc,omitempty"`     // 0 = leave
-	Pollute  int   `json:"pollute,omitempty"`  // unrelated builds first, in the same process
-	Twin     bool  `json:"twin,omitempty"`     // first build another revision of the same program's synthetic dependencies (same import paths, other contents)
-	Scramble int   `json:"scramble,omitempty"` // small objects per size class allocated and partly freed (pattern from Ballast) so that later allocations fill holes in scrambled address order
+	GOGC     int   `json:"gogc,omitempty"`            // 0 = leave
+	Pollute  int   `json:"pollute,omitempty"`         // unrelated builds first, in the same process
+	Shared   bool  `json:"shared_importer,omitempty"` // standard packages come from one importer shared by all builds of the process
+	Twin     bool  `json:"twin,omitempty"`            // first build another revision of the same program's synthetic dependencies (same import paths, other contents)
+	Scramble int   `json:"scramble,omitempty"`        // small objects per size class allocated and partly freed (pattern from Ballast) so that later allocations fill holes in scrambled address order
 }
 
 type Record struct {
@@ -76,11 +77,12 @@ func gen(rt *rapid.T) any {
 	if r.Prog.Corpus == "" {
 		r.Prog.ForceImports = gencommon.ForceImports(rt)
 	}
-	r.Front = gencommon.Front(rt, gencommon.FrontSpec{Faults: []string{"discard_ref", "abort_stmt", "abort_init", "discard_reset"}, MaxFaults: 3, Constructs: []string{"vblock", "inline_closure", "bigint_op", "unit_lit", "unsafe_ref", "bti_call"}, FileAssign: true, HandlerFlip: true, Writes: true, CompleteEarly: true})
+	r.Front = gencommon.Front(rt, gencommon.FrontSpec{Faults: []string{"discard_ref", "abort_stmt", "abort_init", "discard_reset"}, MaxFaults: 3, Constructs: []string{"vblock", "inline_closure", "bigint_op", "unit_lit", "unsafe_ref", "bti_call", "generic_inst"}, FileAssign: true, HandlerFlip: true, Writes: true, CompleteEarly: true})
 	r.Envs = []EnvSpec{
 		{Native: true},
 		{MapDflt: 0, PoolDflt: -1},
-		{MapDflt: 1, PoolDflt: 0, Ballast: 256, GCBefore: true, Scramble: 200, Twin: true},
+		{MapDflt: 1, PoolDflt: 0, Ballast: 256, GCBefore: true, Scramble: 200, Twin: true, Shared: true},
+		{MapDflt: 0, PoolDflt: -1, Shared: true},
 	}
 	n := rapid.IntRange(1, 3).Draw(rt, "nenv")
 	for i := 0; i < n; i++ {
@@ -99,6 +101,7 @@ func gen(rt *rapid.T) any {
 		e.Pollute = rapid.IntRange(0, 2).Draw(rt, "pollute")
 		e.Scramble = rapid.SampledFrom([]int{0, 0, 50, 400}).Draw(rt, "scramble")
 		e.Twin = rapid.Bool().Draw(rt, "twin")
+		e.Shared = rapid.Bool().Draw(rt, "shared_importer")
 		r.Envs = append(r.Envs, e)
 	}
 	return r
@@ -180,7 +183,7 @@ func buildIn(r *Record, e EnvSpec) *built {
 	salt := saltCounter
 	if e.Twin {
 		if t := prog.Twin(r.Prog); t != nil {
-			env.BuildSalted(t, &run.Front{XGoBuiltin: r.Front.XGoBuiltin, Faults: r.Front.Faults}, nil, salt)
+			env.BuildSalted(t, &run.Front{XGoBuiltin: r.Front.XGoBuiltin, Faults: r.Front.Faults, SharedImporter: e.Shared}, nil, salt)
 			twinBuilds++
 		}
 	}
@@ -192,7 +195,9 @@ func buildIn(r *Record, e EnvSpec) *built {
 	}
 	var ops []string
 	hooks := &minicl.Hooks{After: func(op string, x, y int) { ops = append(ops, op) }}
-	res := env.BuildSalted(r.Prog, r.Front, hooks, salt)
+	fr := *r.Front
+	fr.SharedImporter = e.Shared
+	res := env.BuildSalted(r.Prog, &fr, hooks, salt)
 	return &built{res: res, hist: core.Hash(ops...), tapes: tp}
 }
 
@@ -492,7 +497,7 @@ func simplify(rec any) []any {
 		out = append(out, &c)
 	}
 	for i, e := range r.Envs {
-		if len(e.MapOrder) > 0 || len(e.Pool) > 0 || e.Ballast > 0 || e.Pollute > 0 || e.GOGC > 0 || e.Scramble > 0 || e.Twin {
+		if len(e.MapOrder) > 0 || len(e.Pool) > 0 || e.Ballast > 0 || e.Pollute > 0 || e.GOGC > 0 || e.Scramble > 0 || e.Twin || e.Shared {
 			c := *r
 			c.Envs = append([]EnvSpec{}, r.Envs...)
 			c.Envs[i] = EnvSpec{Native: e.Native, MapDflt: e.MapDflt, PoolDflt: e.PoolDflt}
